@@ -68,9 +68,11 @@ def check_linear(run, a, b, m):
     for name, v, v2, inward in (("low", lo, lo2, lo2 - lo), ("high", hi, hi2, hi - hi2)):
         if inward > 0:
             small = inward <= 1e-9 * max(abs(v), S0)
-            run.violation("C14.linear.inward.rounding" if small else "C14.linear.inward", inp,
-                          dict(obs, end=name, inward_by=inward, ulps=inward / math.ulp(v) if v else None),
-                          known=ROUNDING_FINDING if small else None)
+            if small:
+                run.tolerated("C14.linear.inward.rounding")
+            else:
+                run.violation("C14.linear.inward", inp,
+                              dict(obs, end=name, inward_by=inward, ulps=inward / math.ulp(v) if v else None))
     worst = None
     for st in cands:
         S = c13.step_value(st)
@@ -92,7 +94,10 @@ def check_linear(run, a, b, m):
     if worst:
         for clause, o in worst:
             o.update(obs)
-            run.violation(clause, inp, o, known=ROUNDING_FINDING if clause.endswith(".rounding") else None)
+            if clause.endswith(".rounding"):
+                run.tolerated(clause)
+            else:
+                run.violation(clause, inp, o)
     return (a2, b2) != (a, b)
 
 
